@@ -188,10 +188,17 @@ pub fn gen_robot(rng: &mut Rng, idx: u64, mode: RobotMode, dof5_prob: f64) -> Ro
     let offset_class: &'static str = if keep_own {
         "own"
     } else {
-        match rng.usize(3) {
+        match rng.usize(4) {
             0 => {
                 rp.offsets = [0.0; 6];
                 "none"
+            }
+            3 => {
+                // offsets beyond half a turn (the model angle plus offset leaves [-3pi, 3pi])
+                for j in 0..6 {
+                    rp.offsets[j] = rng.range(-2.0 * PI, 2.0 * PI);
+                }
+                "large"
             }
             1 => {
                 for j in 0..6 {
